@@ -87,6 +87,17 @@ class LogTask(LogBase):
     holder2: Param[Optional[Holder2]] = None
 
 
+class OutCfg(Config):
+    name: Param[str]
+
+
+class LogTaskOut(LogTask):
+    """A task that declares what submit() returns; consumers may still hold the task object itself"""
+
+    def task_outputs(self, dep) -> OutCfg:
+        return dep(OutCfg(name=self.name))
+
+
 # --------------------------------------------------------------------------- C20 (a): identifiers
 
 
